@@ -40,7 +40,7 @@ CHILD_KINDS = ["well_behaved", "exits_early", "exits_after_k", "ignores_sigterm"
                "slow_start", "unstartable", "slow_to_die"]
 EXIT_PATHS = ["normal", "exception", "cancel_scope", "fail_after", "task_cancel"]
 MOMENTS = ["before_first", "in_flight", "after_response", "during_aexit"]
-ENTRIES = ["stdio_client", "StdioClient", "StdioTransport"]
+ENTRIES = ["stdio_client", "StdioClient", "StdioTransport", "stdio_client_with_initialize"]
 
 
 def _child_cfg(kind, rng=None):
@@ -165,6 +165,10 @@ def execute(scn: dict) -> dict:
                 o = json.loads(line)
             except Exception:
                 return []
+            if isinstance(o, dict) and "id" in o and o.get("method") == "initialize":
+                res = {"jsonrpc": "2.0", "id": o["id"], "result": {"protocolVersion": o["params"]["protocolVersion"], "capabilities": {},
+                                                                  "serverInfo": {"name": "sim", "version": "1"}}}
+                return [(ticks(ch["respond_latency"]), [json.dumps(res).encode() + b"\n"])]
             if isinstance(o, dict) and "id" in o and "method" in o:
                 res = {"jsonrpc": "2.0", "id": o["id"], "result": {"echo": o["method"], "marker": f"r{len(st['responses_written'])}"}}
                 st["responses_written"].append(res)
@@ -278,6 +282,10 @@ def execute(scn: dict) -> dict:
             if scn["entry"] == "stdio_client":
                 async with stdio.stdio_client(params) as (r, w):
                     await inside(r, w)
+            elif scn["entry"] == "stdio_client_with_initialize":
+                # the handshake runs inside the context manager; a child that never answers makes entering fail after the child was spawned
+                async with stdio.stdio_client_with_initialize(params, timeout=1.0) as (r, w, _init):
+                    await inside(r, w)
             elif scn["entry"] == "StdioClient":
                 async with stdio.StdioClient(params) as client:
                     r, w = client.get_streams()
@@ -362,6 +370,8 @@ def execute(scn: dict) -> dict:
     if st.get("t_trigger") is not None and (t_begin is None or st["t_trigger"] < t_begin):
         t_begin = st["t_trigger"]
     bound = 2.0 + ticks(ch["term_latency"]) + ticks(ch["kill_latency"])
+    if scn["entry"] == "stdio_client_with_initialize" and not st["entered"]:
+        t_begin = None  # entering failed (handshake): no exit-time clause applies, only "no child left behind"
     if t_begin is not None and st["entered"]:
         dur = st["t_exit_end"] - t_begin
         if dur > bound:
